@@ -154,6 +154,47 @@ def pixel_shuffle_empty(name, c, detail):
     return name == "pixel_shuffle" and len(c["shape"]) != 4 and 0 in c["shape"]
 
 
+def sdpa_fully_masked_row(name, c, detail):
+    """boolean attn_mask with a query row that allows no key: PyTorch returns zeros for that row; the graph masks with the
+    lowest finite float (named neg_inf), so Softmax is uniform and the IsNaN -> 0 repair never fires."""
+    return name == "float:aten_scaled_dot_product_attention" and bool(c.get("fully_masked_row"))
+
+
+def elu_input_scale(name, c, detail):
+    """aten_elu multiplies the whole input by input_scale; PyTorch applies it to the negative branch only."""
+    return name == "float:aten_elu" and c.get("input_scale") != 1
+
+
+def avg_pool_divisor_override(name, c, detail):
+    """divisor_override is accepted and silently ignored by aten_avg_pool2d / aten_avg_pool3d (repo-known: its tests xfail it)."""
+    return name in ("float:aten_avg_pool2d", "float:aten_avg_pool3d") and c.get("divisor_override") is not None
+
+
+def cross_entropy_label_smoothing(name, c, detail):
+    """label_smoothing is accepted and silently ignored by aten_cross_entropy_loss."""
+    return name == "float:aten_cross_entropy_loss" and c.get("label_smoothing", 0.0) != 0.0
+
+
+def vector_norm_keepdim_no_dim(name, c, detail):
+    """aten_linalg_vector_norm with dim=None sets keepdim = False; torch keeps all dims as 1."""
+    return name == "vector_norm" and c["dims"] is None and c["keep"] and len(c["shape"]) > 0
+
+
+def isclose_infinities(name, c, detail):
+    """aten_isclose: inf vs inf gives NaN <= tol = False (PyTorch True); inf vs -inf with rtol > 0 gives inf <= inf = True (PyTorch False)."""
+    return name == "float:aten_isclose" and bool(c.get("has_inf"))
+
+
+def repeat_interleave_tensor_dim(name, c, detail):
+    """aten_repeat_interleave_Tensor always repeats along axis 0 (dim only decides flattening) and fails at trace time for rank > 2."""
+    return name == "float:aten_repeat_interleave_Tensor" and c.get("dim") is not None and (c["dim"] % c["rank"] != 0 or c["rank"] > 2)
+
+
+def conv3d_no_bias(name, c, detail):
+    """aten_conv3d with bias=None builds a zero bias of shape [O, 2] (copied from the complex overload); Conv needs [O]."""
+    return name == "conv3d" and not c["bias"]
+
+
 def split_zero_dim(name, c, detail):
     return name == "split" and _size(c, c["dim"]) == 0
 
@@ -173,13 +214,14 @@ def div_mode_int_f32(name, c, detail):
 def int_dtype_promotion(name, c, detail):
     """integer results whose dtype differs from PyTorch's: sum/prod-style promotion to int64 is not
     reproduced, and bitwise_left_shift always casts to the signed type."""
-    return name in ("sum", "sum_dim") and detail.startswith("dtype")
+    return name in ("sum", "sum_dim", "cumsum") and detail.startswith("dtype")
 
 
 PREDICATES = {
-    "C08-scatter-src-larger": scatter_src_larger,
-    "C08-pixel-shuffle-empty": pixel_shuffle_empty,
-    "C08-add-bool-alpha0-broadcast": add_bool_alpha0_broadcast,
+    "C08-repeat-interleave-tensor-dim": repeat_interleave_tensor_dim,
+    "C08-isclose-infinities": isclose_infinities,
+    "C08-avg-pool-divisor-override-ignored": avg_pool_divisor_override,
+    "C08-cross-entropy-label-smoothing-ignored": cross_entropy_label_smoothing,
     "C08-unfold-rank0-size0": unfold_rank0_size0,
     "C08-upsample-bilinear-scales-ignored": upsample_bilinear_scales_ignored,
     "C08-empty-reduction": empty_reduction,
